@@ -28,7 +28,7 @@ func doGuarded(c *Ctx, s *Sess, o EOp, what string) string {
 }
 
 func runC03(c *Ctx) {
-	c.Rule = "structured and malformed streams: (0) Enforce over conditional role graphs with cycles, in a child process (a stack overflow is fatal), and subject-priority loads over large hierarchies (chains of up to 40 diamonds, fully connected clusters, a complete layered DAG) in a child process with a time and address-space limit; (A) every model family of C01 plus built-in-heavy matchers (keyMatch, regexMatch, ipMatch, eval) with requests of wrong arity, non-string values into g() and built-ins, attribute access on strings and missing attributes, unknown EnforceContext names, operands on which built-ins panic, unparsable and self-referential eval() rules; (B) policy text for the file and string adapters assembled from a line alphabet (valid rules, wrong arity, unknown and empty types, quoted / unbalanced / bare quotes, comments, blanks, CRLF, NUL, commas only, an over-long line), under every effect incl. subjectPriority with cyclic role graphs and explicit priority; every call runs under a 5 s watchdog with recover at the harness boundary; the Lean model must predict exactly the class (decision / error) and the loaded rules; arbitrary invalid-UTF-8 bytes are run on the implementation only; non-trivial = a case containing both a successful and a failing call; distinct = case text"
+	c.Rule = "structured and malformed streams: (0) Enforce over conditional role graphs with cycles, in a child process (a stack overflow is fatal), and subject-priority loads over large hierarchies (chains of up to 40 diamonds, fully connected clusters, a complete layered DAG) in a child process with a time and address-space limit; (A) every model family of C01 plus built-in-heavy matchers (keyMatch, regexMatch, ipMatch, eval) with requests of wrong arity, non-string values into g() and built-ins, attribute access on strings and missing attributes, unknown EnforceContext names, operands on which built-ins panic, unparsable and self-referential eval() rules, and for every pattern built-in a pattern that does not compile followed by well-formed requests on the same and on a fresh enforcer; (B) policy text for the file and string adapters assembled from a line alphabet (valid rules, wrong arity, unknown and empty types, quoted / unbalanced / bare quotes, comments, blanks, CRLF, NUL, commas only, an over-long line), under every effect incl. subjectPriority with cyclic role graphs and explicit priority, every third model with a second, shorter policy definition p2; every call runs under a 5 s watchdog with recover at the harness boundary; the Lean model must predict exactly the class (decision / error) and the loaded rules; arbitrary invalid-UTF-8 bytes are run on the implementation only; non-trivial = a case containing both a successful and a failing call; distinct = case text"
 	// ---- (0) conditional role managers (not modelled): cycles must not hang or crash Enforce (child process)
 	condCycles(c)
 	subjectDags(c)
@@ -151,11 +151,51 @@ func runC03(c *Ctx) {
 		"x, a, b", ", alice, data1, read", "p, \"a,b\", data1, read", "p, \"unbalanced, data1, read", "p, ba\"re, data1, read", "p, \"x\"y, data1, read",
 		"# comment", "", "   ", "p,alice,data1,read\r", "p, a\x00b, data1, read", ",,,", "p", "g, a, b, c, d", "p2, alice, data1", "\"p\", carol, data1, read", "p , dave, data1, read",
 		"\" \", bob, data2, write", "\"\t \", x, y, z",
-		"p, 1, alice, data1, read, allow", "p, 3, alice, data1, read, deny", "p, -1, bob, data1, read, deny", "p, alice, data1, read, deny"}
+		"p, 1, alice, data1, read, allow", "p, 3, alice, data1, read, deny", "p, -1, bob, data1, read, deny", "p, alice, data1, read, deny",
+		"p2, alice, read", "p2, bob, write", "p2, carol, read"}
 	effects := []struct{ name, e string }{{"allow", effAllow}, {"deny", effDeny}, {"allow-and-deny", effAllowDen}, {"priority", effPriority}, {"subject", "subjectPriority(p_eft) || deny"}}
 	nTexts := 250
 	if c.Thorough() {
 		nTexts = 15000
+	}
+	// every effect x every layout of p, with a second policy definition that has fewer columns than p and
+	// several rules (the load-time sorts compare rules pairwise): the load succeeds and p2 is left in file order
+	for _, ef := range effects {
+		for _, layout := range [][]string{{"sub", "obj", "act"}, {"sub", "obj", "act", "eft"}, {"priority", "sub", "obj", "act", "eft"}, {"sub", "obj", "act", "eft", "priority"}} {
+			if layout[0] == "priority" || layout[len(layout)-1] == "priority" {
+				if ef.name != "priority" {
+					continue
+				}
+			}
+			ms := NewMSpec().AddR("r", "sub", "obj", "act").AddP("p", layout...).AddP("p2", "sub", "act").AddG("g", 2).AddE("e", ef.e)
+			off := 0
+			if layout[0] == "priority" {
+				off = 1
+			}
+			ms.AddM("m", "r", "p", And(G2("g", RTok(0), PTok(off)), Eq(RTok(1), PTok(off+1))))
+			rule := func(prio, sub, obj, act, eft string) string {
+				f := []string{"p"}
+				for _, col := range layout {
+					f = append(f, map[string]string{"priority": prio, "sub": sub, "obj": obj, "act": act, "eft": eft}[col])
+				}
+				return strings.Join(f, ", ")
+			}
+			text := strings.Join([]string{rule("3", "alice", "data1", "read", "deny"), rule("1", "admin", "data1", "read", "allow"),
+				"p2, zoe, write", "p2, alice, read", "p2, bob, write", "p2, alice, write", "g, alice, admin", "g, admin, root"}, "\n") + "\n"
+			for _, kind := range []string{"file", "string"} {
+				s := StartCase(c, ms, CaseOpts{})
+				if s == nil {
+					continue
+				}
+				doGuarded(c, s, EOp{Kind: "loadtext", What: kind, Text: text}, "LoadPolicy through the "+kind+" adapter with a second, shorter policy definition")
+				s.Do(c, EOp{Kind: "obs", Args: []string{"pol", "p", "p"}})
+				s.Do(c, EOp{Kind: "obs", Args: []string{"pol", "p", "p2"}})
+				for _, sub := range []string{"alice", "bob"} {
+					doGuarded(c, s, EOp{Kind: "enf", Req: []V{VS(sub), VS("data1"), VS("read")}}, "Enforce after a load")
+				}
+				c.Count("second_definition_loads", 1)
+			}
+		}
 	}
 	for i := 0; i < nTexts; i++ {
 		ef := effects[c.Rng.Intn(len(effects))]
@@ -175,6 +215,11 @@ func runC03(c *Ctx) {
 			ms.M["m"] = And(G2("g", RTok(0), PTok(1)), Eq(RTok(1), PTok(2)))
 		} else {
 			ms.M["m"] = And(G2("g", RTok(0), PTok(0)), Eq(RTok(1), PTok(1)))
+		}
+		// every third model has a second, shorter policy definition without eft / priority columns: the
+		// load-time sorts must leave it alone whatever p looks like
+		if i%3 == 2 {
+			ms.AddP("p2", "sub", "act")
 		}
 		var lines []string
 		for k := 0; k < 1+c.Rng.Intn(7); k++ {
@@ -199,6 +244,9 @@ func runC03(c *Ctx) {
 		obs := doGuarded(c, s, EOp{Kind: "loadtext", What: kind, Text: text}, "LoadPolicy through the "+kind+" adapter")
 		s.Do(c, EOp{Kind: "obs", Args: []string{"pol", "p", "p"}})
 		s.Do(c, EOp{Kind: "obs", Args: []string{"pol", "g", "g"}})
+		if i%3 == 2 {
+			s.Do(c, EOp{Kind: "obs", Args: []string{"pol", "p", "p2"}})
+		}
 		for _, sub := range []string{"alice", "bob"} {
 			doGuarded(c, s, EOp{Kind: "enf", Req: []V{VS(sub), VS("data1"), VS("read")}}, "Enforce after a load")
 		}
@@ -226,5 +274,90 @@ func runC03(c *Ctx) {
 			}
 			c.Count("raw_byte_loads", 1)
 		}
+	}
+	c03AfterRejectedPattern(c)
+}
+
+// c03AfterRejectedPattern: a call that was rejected must not poison the calls after it.  The pattern built-ins
+// that compile their second argument (keyMatch4, keyGet2, keyGet3 through a process-wide cache; regexMatch,
+// keyMatch2/3 directly) get a pattern that does not compile, then the same and a fresh enforcer are asked
+// requests that only meet well-formed patterns: each call returns within the watchdog and decides as the
+// reference says.  Implementation only; last in the run because a poisoned process-wide lock would stall
+// everything after it.
+func c03AfterRejectedPattern(c *Ctx) {
+	type tc struct {
+		name, matcher string
+		bad, good     []string
+		reqBad, req   []interface{}
+	}
+	cases := []tc{
+		{"keyMatch4", "r.sub == p.sub && keyMatch4(r.obj, p.obj) && r.act == p.act", []string{"alice", "/res/{id}/(", "read"}, []string{"alice", "/ok/{id}", "read"}, []interface{}{"alice", "/res/1/x", "read"}, []interface{}{"alice", "/ok/1", "read"}},
+		{"keyGet2", "r.sub == p.sub && keyGet2(r.obj, p.obj, 'id') == '1' && r.act == p.act", []string{"alice", "/res/:id/(", "read"}, []string{"alice", "/ok/:id", "read"}, []interface{}{"alice", "/res/1/x", "read"}, []interface{}{"alice", "/ok/1", "read"}},
+		{"keyGet3", "r.sub == p.sub && keyGet3(r.obj, p.obj, 'id') == '1' && r.act == p.act", []string{"alice", "/res/{id}/(", "read"}, []string{"alice", "/ok/{id}", "read"}, []interface{}{"alice", "/res/1/x", "read"}, []interface{}{"alice", "/ok/1", "read"}},
+		{"regexMatch", "r.sub == p.sub && regexMatch(r.obj, p.obj) && r.act == p.act", []string{"alice", "/res/(", "read"}, []string{"alice", "/ok/[0-9]+", "read"}, []interface{}{"alice", "/res/1", "read"}, []interface{}{"alice", "/ok/1", "read"}},
+		{"keyMatch2", "r.sub == p.sub && keyMatch2(r.obj, p.obj) && r.act == p.act", []string{"alice", "/res/:id/(", "read"}, []string{"alice", "/ok/:id", "read"}, []interface{}{"alice", "/res/1/x", "read"}, []interface{}{"alice", "/ok/1", "read"}},
+	}
+	enforce := func(e *casbin.Enforcer, req []interface{}) string {
+		type res struct {
+			ok  bool
+			err error
+		}
+		ch := make(chan res, 1)
+		go func() {
+			defer func() {
+				if r := recover(); r != nil {
+					ch <- res{false, fmt.Errorf("escaped-panic: %v", r)}
+				}
+			}()
+			ok, err := e.Enforce(req...)
+			ch <- res{ok, err}
+		}()
+		select {
+		case r := <-ch:
+			if r.err != nil && strings.HasPrefix(r.err.Error(), "escaped-panic:") {
+				return "panic"
+			}
+			if r.err != nil {
+				if r.ok {
+					return "err-but-true"
+				}
+				return "err"
+			}
+			return fmt.Sprint(r.ok)
+		case <-time.After(5 * time.Second):
+			return "hang"
+		}
+	}
+	for _, t := range cases {
+		text := strings.Replace(rbacText, "m = g(r.sub, p.sub) && r.obj == p.obj && r.act == p.act", "m = "+t.matcher, 1)
+		if !strings.Contains(text, t.matcher) {
+			panic("c03AfterRejectedPattern: matcher line not found")
+		}
+		e, err := casbin.NewEnforcer(mustModel(text))
+		if err != nil {
+			panic(err)
+		}
+		_, _ = e.AddPolicy(t.bad)
+		_, _ = e.AddPolicy(t.good)
+		first := enforce(e, t.reqBad)
+		again := enforce(e, t.reqBad)
+		fresh, _ := casbin.NewEnforcer(mustModel(text))
+		_, _ = fresh.AddPolicy(t.good)
+		after := enforce(fresh, t.req)
+		c.Evals += 3
+		c.Count("after_rejected_pattern_cases", 1)
+		what := fmt.Sprintf("%s: rule %v (pattern does not compile) and rule %v; Enforce%v = %s, again = %s; then on a fresh enforcer holding only the good rule Enforce%v = %s", t.name, t.bad, t.good, t.reqBad, first, again, t.req, after)
+		for _, o := range []string{first, again, after} {
+			if o == "panic" || o == "hang" || o == "err-but-true" {
+				c.Direct("a call after (or on) a pattern that does not compile panics, hangs or allows with an error", what)
+			}
+		}
+		if first != again {
+			c.Direct("the same request on the same state is classified differently the second time", what)
+		}
+		if after != "true" {
+			c.Direct("a rejected pattern in one enforcer changes what another enforcer decides on well-formed patterns", what)
+		}
+		c.Nontrivial("after-rejected|" + t.name)
 	}
 }
